@@ -69,6 +69,17 @@ CHECKS["C07"] = ("DESIGN.md C07",
     "obligations; sorted() on lists of <= 4 (thorough 6) [key, tag] pairs with symbolic keys "
     "(permutation, ordered, stable; default/key/cmp); set and map-key enumeration order.")
 
+CHECKS["C06"] = ("DESIGN.md C06",
+    "All 64 kind pairs and 13 kind triples of data values with symbolic payloads (unbounded ints, "
+    "integral decimals up to 2^53, strings <= 2, booleans, lists of mixed int/decimal) through "
+    "==, !=, equals, not_equals of the real interpreter and Value.__eq__: reflexive, symmetric, "
+    "transitive, numeric across int/decimal, never equal across kinds. Finite-domain part (28-value "
+    "pool incl. 2^53, 2^53+1, 2^63, 2^64 and their decimal twins, nested containers): hash "
+    "consistency on every pair; sets/maps of 3 (thorough 4) pool elements in both insertion orders: "
+    "no two equal elements, cardinality, membership, lookup, removal and container equality agree "
+    "for every equal representative. The finite-domain part is an exhaustive enumeration that the "
+    "solver merely drives.")
+
 NA = {}
 
 
